@@ -152,28 +152,36 @@ def fixed_points(acc: Acc) -> None:
 
 WORDS = ['if', 'else', 'def', 'in', 'not', 'x', 'kw', 'end']
 SYMS = ['+', '-', '*', '(', ')', '[', ']', ',', ':', '=', '.', '==', '->', ':=']
-REGEXPS = ['[a-z]+', '[A-Z]\\w*', '0|[1-9]\\d*', '[-+]', '[*\\/%]', '<|>|==', '\\*{1,2}']
+REGEXPS = ['[a-z]+', '[A-Z]\\w*', '0|[1-9]\\d*', '[-+]', '[*\\/%]', '<|>|==', '\\*{1,2}', '\\/', '\\/\\/', '[a-z]+:\\/\\/', '\\/[*]']
 
 
 class GGen:
 	def __init__(self, r: random.Random) -> None:
 		self.r = r
 		self.feats: set[str] = set()
+		self.broken: list[str] = []
 		R, _ = engine()
 		self.R = R
+
+	def make(self, text: str):
+		"""Pattern.make under an independent law: a terminal's expression is the text between its two delimiters, nothing more stripped."""
+		p = self.R.Pattern.make(text)
+		if p.expression != text[1:-1]:
+			self.broken.append(f'Pattern.make({text!r}).expression == {p.expression!r}, expected {text[1:-1]!r}')
+		return p
 
 	def terminal(self):
 		r, R = self.r, self.R
 		x = r.random()
 		if x < 0.4:
-			return R.Pattern.make('"' + r.choice(WORDS) + '"')
+			return self.make('"' + r.choice(WORDS) + '"')
 		if x < 0.75:
-			return R.Pattern.make('"' + r.choice(SYMS) + '"')
+			return self.make('"' + r.choice(SYMS) + '"')
 		if x < 0.8:
 			self.feats.add('backslash-word')
-			return R.Pattern.make('"\\' + r.choice(['INDENT', 'DEDENT', 'OP_UNARY_MINUS']) + '"')
+			return self.make('"\\' + r.choice(['INDENT', 'DEDENT', 'OP_UNARY_MINUS']) + '"')
 		self.feats.add('regexp')
-		return R.Pattern.make('/' + r.choice(REGEXPS) + '/')
+		return self.make('/' + r.choice(REGEXPS) + '/')
 
 	# Canonical shapes (exactly what Rules.from_ast can produce, i.e. what the meta-grammar can express):
 	#   term  := Pattern | group            group := Patterns([expr], rep in {none, *, +, ?, []})   (single entry)
@@ -243,7 +251,7 @@ class GGen:
 
 
 def sample_for_regexp(r: random.Random, expr: str) -> str:
-	table = {'[a-z]+': ['a', 'foo', 'zed'], '[A-Z]\\w*': ['A', 'Foo', 'B_1'], '0|[1-9]\\d*': ['0', '7', '42'], '[-+]': ['+'], '[*\\/%]': ['*', '/', '%'], '<|>|==': ['<', '>', '=='], '\\*{1,2}': ['*', '**']}
+	table = {'\\/': ['/'], '\\/\\/': ['//'], '[a-z]+:\\/\\/': ['http://', 'a://'], '\\/[*]': ['/*'], '[a-z]+': ['a', 'foo', 'zed'], '[A-Z]\\w*': ['A', 'Foo', 'B_1'], '0|[1-9]\\d*': ['0', '7', '42'], '[-+]': ['+'], '[*\\/%]': ['*', '/', '%'], '<|>|==': ['<', '>', '=='], '\\*{1,2}': ['*', '**']}
 	return r.choice(table.get(expr, ['a']))
 
 
@@ -303,6 +311,10 @@ def check_grammar(acc: Acc, case: dict) -> None:
 	nontrivial = any(f in ('nested-group', 'unwrap:1', 'unwrap:*', 'regexp') for f in feats)
 	for f in feats:
 		acc.see('feature', f)
+	if gg.broken:
+		acc.case(sig_of(text), None, nontrivial)
+		acc.violation('pattern-make', gg.broken[0], case)
+		return
 	try:
 		tree = SyntaxParser(gram_rules(), gram_tokenizer()).parse(text, 'entry')
 		g2 = R.Rules.from_ast(tree.simplify())
